@@ -272,7 +272,8 @@ Definition verdict_extract_C11 (a : list val) (out : val) : N :=
               match xdescs_of_vals fields ks rs with
               | Some xs =>
                   let bad := filter (fun x => match x_lenient x with
-                                              | XEntries _ es => negb (forallb (coil_entry_ok (zN ms) fields) es)
+                                              | XEntries _ es => (x_k x =? x_qty x) &&     (* complete replies only *)
+                                                                 negb (forallb (coil_entry_ok (zN ms) fields) es)
                                               | XFailed => false end) xs in
                   if (length bad =? 0)%nat then HOLDS
                   else if forallb (fun x => 8 <? x_k x) bad then KF_COIL_BYTE_ORDER else VIOLATES
